@@ -1,5 +1,5 @@
 (** fastavro/_validation_py.py _validate with raise_errors=False, as a function.
-    [Err] = a Python exception other than ValidationError (e.g. tuple of wrong arity). *)
+    [Err] = a Python exception other than ValidationError (e.g. an unknown type name). *)
 From Coq Require Import String.
 From FA Require Import model.Base model.Value model.Schema.
 
@@ -118,7 +118,7 @@ Fixpoint validate (f : nat) (o : wopts) (e : env) (s : schema) (ov : option pyva
               if disable_tuple o then any_branch (validate f o e) v bs
               else match l with
                    | [name; v'] => hinted (validate f o e) name v' bs
-                   | _ => Err                                    (* (name, datum) = datum : ValueError *)
+                   | _ => Ok false                               (* len(datum) != 2: not a (name, value) hint *)
                    end
           | _ => any_branch (validate f o e) v bs
           end
